@@ -33,7 +33,7 @@ PROPS = {
     'C11': dict(engines=['conc'], translator_keys=[], uses_gen=False, trusted_base=STD + ['Go race detector (go build -race)'], assumptions=['the Go memory model itself is not modelled']),
     'C12': dict(engines=['csv'], translator_keys=['internal/fastcsv', 'internal/io'], trusted_base=STD, assumptions=[]),
     'C13': dict(engines=['csv'], translator_keys=['internal/fastcsv', 'internal/io'], trusted_base=STD + ['encoding/csv Writer transcription (Go 1.23)', 'strconv FormatFloat/ParseFloat round trip hypothesis'], assumptions=['float_roundtrip']),
-    'C14': dict(engines=['strings', 'ryu'], translator_keys=['internal/strings'], trusted_base=STD, assumptions=[]),
+    'C14': dict(engines=['strings', 'ryu', 'frameops'], translator_keys=['internal/strings'], trusted_base=STD, assumptions=[]),
     'C15': dict(engines=['iofault'], translator_keys=[], uses_gen=False, trusted_base=STD + ['database/sql, bufio, encoding/csv, encoding/json error propagation as modelled'], assumptions=[]),
     'C16': dict(engines=['ryu'], translator_keys=['internal/ryu'], trusted_base=STD, assumptions=[]),
     'C17': dict(engines=['bits', 'frameops', 'csv'], translator_keys=['internal/ecolumn'], trusted_base=STD, assumptions=[]),
